@@ -103,7 +103,7 @@ func RunWorker(spec WorkerSpec) *WorkerResult {
 	}
 	classes := map[string]int{}
 	// Watchdog: the one place a real clock influences anything. A run that
-	// makes no progress for 20 s is recorded as a suspected hang; the driver
+	// makes no progress (see cpuMillis above for the rule) is recorded as a suspected hang; the driver
 	// re-runs that world alone and only a hang that reproduces is reported.
 	var curWorld atomic.Pointer[World]
 	var curStart atomic.Int64
